@@ -101,7 +101,7 @@ def only_present(contracts, present, amap):
 
 def jobs(tier):
     L, hdr, body = lower()
-    cap = 4 if tier == 'quick' else 8
+    cap = 4 if tier == 'quick' else 5
     contracts = open(os.path.join(VERIF, 'contracts/queue.h')).read()
     import re
     J = []
